@@ -7,6 +7,7 @@ requests (words separated by blanks; numbers are `num/den` or integers, a missin
   sys   n lam kl lw.. kc cw.. mask(n words 0/1)   -> the system matrix as `QMat.toText`
   cert  <req> tau <n*nv values, variant-major>    -> `ok <stationarity residual> <constraint residual>` per variant | `err:singular`
   l1    order lam n y.. trend.. gap..             -> `ok rangeErr boxExcess dualGap tauErr maxAbsNu` | `err:singular`
+  dmat  order n                                   -> the difference matrix of `_ell_one.py` as `QMat.toText`
 <req> = lam slo|- shi|- dstart dlen nv <dlen*nv values, variant-major> lev (-| start len values..) chg (-| start len values..)
 -/
 import IrisVerif.Model.HP
@@ -135,6 +136,10 @@ def step (line : String) : String :=
       let y : Array (Option Rat) := (mask.map (fun m => if m = 1 then some (0 : Rat) else none)).toArray
       (sysMatrix n lam lw cw y).toText
     | _ => "bad-op"
+  | ["dmat", order, n] =>
+    match order.toNat?, n.toNat? with
+    | some o, some n => if o = 1 ∨ o = 2 then (lonfD o n).toText else "bad-op"
+    | _, _ => "bad-op"
   | "l1" :: rest =>
     match (do let order ← nat; let lam ← rat; let n ← nat
               let y ← many n rat; let t ← many n rat; let g ← many n rat
